@@ -63,6 +63,7 @@ pub fn run_plan(p: &Plan) -> RunOut {
         (Shape::Large, 1, 4) => go!(LK, LV, 1, 4),
         (Shape::ZstVal, 0, 1) => go!(SK, ZVal, 0, 1),
         (Shape::Aligned, 3, 2) => go!(AK, AV, 3, 2),
+        (Shape::Small, 300, 3) => go!(SK, SV, 300, 3),
         (s, n, m) => panic!("no executor instance for shape {s:?} with capacities ({n}, {m})"),
     }
 }
